@@ -54,8 +54,8 @@ func c04core(r *simkit.Run, minSources int, forceFine bool) {
 	nsrc := rapid.IntRange(minSources, 4).Draw(rt, "sources")
 	limit := rapid.IntRange(0, 5).Draw(rt, "limit")
 	fine := forceFine || rapid.Bool().Draw(rt, "fine")
-	nops := rapid.IntRange(1, 40).Draw(rt, "ops")
-	maxReq := 24
+	nops := rapid.IntRange(1, deep(40, 120)).Draw(rt, "ops")
+	maxReq := deep(24, 60)
 
 	sim := simrt.New(r.Chooser())
 	defer sim.Shutdown()
